@@ -1,5 +1,10 @@
 import Ladim.Driver.Util
 import Ladim.Model.Output
+import Ladim.Model.Sample
+import Ladim.Model.Vertical
+import Ladim.Model.Grid
+import Ladim.Model.Tracker
+import Ladim.Model.Forcing
 /-
 Line-protocol driver: one JSON request per input line, one JSON response per output line.
 It only *runs* the executable model definitions of `Ladim.Model.*`; it contains no logic of
@@ -145,8 +150,189 @@ def opGenName (j : Json) : R Json := do
   let n ← getNat (← fld j "n")
   pure (listJ (fun k => Json.str (genName stem suffix k)) (List.range n))
 
+/-! ### C03: forcing in time -/
+
+def getFrame (j : Json) : R Frame := do
+  let a ← getList getInt j
+  match a with
+  | [s, f, i] => pure { step := s, file := f.toNat, idx := i.toNat }
+  | _ => throw "frame = [step, file, idx]"
+
+def tableFn (t : List (List Rat)) : Nat → Nat → Rat := fun f i => ((t[f]?).bind (·[i]?)).getD 0
+
+def fmSnap (m : FM) (fracs : List Rat) : Json :=
+  Json.mkObj [("vel", listJ (fun f => ratJ (m.velocity f)) fracs), ("scal", ratJ m.scal),
+    ("open", optJ natJ m.openFile)]
+
+def opForcing (j : Json) : R Json := do
+  let frames ← getList getFrame (← fld j "frames")
+  let valU := tableFn (← getList (getList getRat) (← fld j "valU"))
+  let valS := tableFn (← getList (getList getRat) (← fld j "valS"))
+  let hasS ← getBool (← fld j "scalar")
+  let n ← getNat (← fld j "nsteps")
+  let fracs ← getList getRat (← fld j "fracs")
+  match FM.init frames valU valS hasS with
+  | none => pure (Json.mkObj [("error", .str "init")])
+  | some m0 =>
+    let mut m := m0
+    let mut out : Array Json := #[]
+    let mut failed : Option Nat := none
+    for k in List.range n do
+      if failed.isNone then
+        match m.update valU valS hasS (k : Int) with
+        | some m' => m := m'; out := out.push (fmSnap m fracs)
+        | none => failed := some k
+    pure (Json.mkObj [("steps", .arr out), ("failed", optJ natJ failed),
+      ("reads", listJ (fun (r : Int × Nat × Nat) => Json.arr #[intJ r.1, natJ r.2.1, natJ r.2.2]) m.reads),
+      ("spec", listJ (fun (k : Nat) => listJ (fun f => optJ ratJ (interpFrames frames valU ((k : Rat) + f))) fracs) (List.range n)),
+      ("spec_scal", listJ (fun (k : Nat) => optJ ratJ (latestFrame frames valS (k : Int))) (List.range n))])
+
+/-! ### C02/C12/C16/C17: sampling, vertical grid, grid -/
+
+def getF2 (j : Json) : R Field2 := getList (getList getRat) j
+def getF3 (j : Json) : R Field3 := getList (getList (getList getRat)) j
+def f2J (F : Field2) : Json := listJ (listJ ratJ) F
+
+def opZ2s (j : Json) : R Json := do
+  let zr ← getList getRat (← fld j "zr")
+  let zs ← getList getRat (← fld j "Z")
+  pure (listJ (fun z => match z2sCol zr z with
+    | some (k, a) => Json.arr #[intJ k, ratJ a]
+    | none => .null) zs)
+
+def opSdepth (j : Json) : R Json := do
+  let vt ← getNat (← fld j "vtransform")
+  let H ← getRat (← fld j "H")
+  let Hc ← getRat (← fld j "Hc")
+  let C ← getList getRat (← fld j "C")
+  let w ← getBool (← fld j "w")
+  pure (listJ ratJ (sdepthCol vt H Hc C w))
+
+def floatJ (x : Float) : Json := .str (toString x)
+
+def getFloat (j : Json) : R Float := do
+  let q ← getRat j
+  pure (Float.ofInt q.num / Float.ofNat q.den)
+
+def opSstretch (j : Json) : R Json := do
+  let N ← getNat (← fld j "N")
+  let ts ← getFloat (← fld j "theta_s")
+  let tb ← getFloat (← fld j "theta_b")
+  let w ← getBool (← fld j "w")
+  let vs ← getNat (← fld j "vstretching")
+  match sStretch N ts tb w vs with
+  | some l => pure (listJ floatJ l)
+  | none => pure (errJ .valueError)
+
+/-- positions are in *grid* coordinates; the forcing subtracts `i0`, `j0` and rounds the cell
+    before shifting -/
+def opSample (j : Json) : R Json := do
+  let U ← getF3 (← fld j "U")
+  let V ← getF3 (← fld j "V")
+  let zr ← getF3 (← fld j "zr")
+  let S ← match fldOpt j "S" with | some s => do pure (some (← getF3 s)) | none => pure none
+  let i0 ← getInt (← fld j "i0")
+  let j0 ← getInt (← fld j "j0")
+  let pts ← getList (getList getRat) (← fld j "points")   -- [x, y, Z, xs, ys]: cell from (x,y), sample at (xs,ys)
+  let res := pts.map fun p =>
+    match p with
+    | [x, y, z, xs, ys] =>
+      let xl : Rat := (roundHalfEven x - i0 : Int)
+      let yl : Rat := (roundHalfEven y - j0 : Int)
+      match z2s zr xl yl z with
+      | none => Json.mkObj [("oob", .str "z2s")]
+      | some (K, A) =>
+        let uv := sample3DUV U V (xs - i0) (ys - j0) K A
+        let sc := S.map (fun F => nearest F xl yl K)
+        Json.mkObj [("K", intJ K), ("A", ratJ A),
+          ("uv", match uv with | some (u, v) => Json.arr #[ratJ u, ratJ v] | none => .null),
+          ("s", match sc with | some (some v) => ratJ v | some none => .str "oob" | none => .null)]
+    | _ => Json.mkObj [("oob", .str "bad point")]
+  pure (.arr res.toArray)
+
+def opGrid (j : Json) : R Json := do
+  let imax0 ← getInt (← fld j "imax0")
+  let jmax0 ← getInt (← fld j "jmax0")
+  let sub ← match fldOpt j "subgrid" with
+    | some s => do
+      let l ← getList getInt s
+      match l with
+      | [a, b, c, d] => pure (some (a, b, c, d))
+      | _ => throw "subgrid = [i0,i1,j0,j1]"
+    | none => pure none
+  match subgridLimits imax0 jmax0 sub with
+  | none => pure (errJ .exit1)
+  | some (a, b, c, d) =>
+    let M ← getF2 (← fld j "mask")
+    let Ms := slice2 M c d a b
+    pure (Json.mkObj [("limits", listJ intJ [a, b, c, d]), ("Mu", f2J (maskU Ms)), ("Mv", f2J (maskV Ms))])
+
+def s2J : S2Result → Json
+  | .value v => ratJ v
+  | .raised => .str "ValueError"
+  | .indexError => .str "IndexError"
+
+def opSample2D (j : Json) : R Json := do
+  let F ← getF2 (← fld j "F")
+  let mask ← match fldOpt j "mask" with | some m => do pure (some (← getF2 m)) | none => pure none
+  let undef ← getRat (← fld j "undef")
+  let outside ← match fldOpt j "outside" with | some m => do pure (some (← getRat m)) | none => pure none
+  let pts ← getList (getList getRat) (← fld j "points")
+  pure (listJ (fun p => match p with
+    | [x, y] => s2J (sample2D F x y mask undef outside)
+    | _ => .null) pts)
+
+def opBilinInv (j : Json) : R Json := do
+  let F ← getF2 (← fld j "F")
+  let G ← getF2 (← fld j "G")
+  let tol ← getRat (← fld j "tol")
+  let maxiter ← getNat (← fld j "maxiter")
+  let pts ← getList (getList getRat) (← fld j "targets")
+  pure (listJ (fun p => match p with
+    | [f, g] => (match bilinInv F G f g maxiter tol with
+        | some (x, y) => Json.arr #[ratJ x, ratJ y]
+        | none => .str "IndexError")
+    | _ => .null) pts)
+
+/-! ### C01/C09/C11/C15: tracker -/
+
+def getGridM (j : Json) : R GridM := do
+  pure { i0 := ← getInt (← fld j "i0"), i1 := ← getInt (← fld j "i1"),
+         j0 := ← getInt (← fld j "j0"), j1 := ← getInt (← fld j "j1"),
+         H := ← getF2 (← fld j "H"), M := ← getF2 (← fld j "M"), dx := ← getF2 (← fld j "dx"),
+         zr := ← match fldOpt j "zr" with | some z => getF3 z | none => pure [] }
+
+def getScheme (j : Json) : R Scheme := do
+  match ← j.getStr? with
+  | "EF" => pure .EF | "RK2" => pure .RK2 | "RK4" => pure .RK4 | _ => pure .none
+
+/-- polynomial velocity oracle: `c0 + cx·x + cy·y + ct·frac + cxy·x·y + cxx·x² + ctt·frac²` -/
+def polyVal (c : List Rat) (frac x y : Rat) : Rat :=
+  match c with
+  | [c0, cx, cy, ct, cxy, cxx, ctt] => c0 + cx * x + cy * y + ct * frac + cxy * x * y + cxx * x * x + ctt * frac * frac
+  | _ => 0
+
+def opTracker (j : Json) : R Json := do
+  let g ← getGridM (← fld j "grid")
+  let cfg : TrkCfg := { scheme := ← getScheme (← fld j "scheme"), dt := ← getRat (← fld j "dt"),
+                        vertAdv := ← getBool (← fld j "vertadv"), vertDiff := ← getBool (← fld j "vertdiff") }
+  let cu ← getList getRat (← fld j "u")
+  let cv ← getList getRat (← fld j "v")
+  let vel : VelOracle := fun frac x y => some (polyVal cu frac x y, polyVal cv frac x y)
+  -- particles: [x, y, z, alive, active, du, dv, wdiff, wadv]
+  let ps ← getList (getList getRat) (← fld j "particles")
+  pure (listJ (fun p => match p with
+    | [x, y, z, al, ac, du, dv, wd, wa] =>
+      (match trackerStep cfg g vel du dv wd wa { x := x, y := y, z := z, alive := al != 0, active := ac != 0 } with
+       | some q => Json.arr #[ratJ q.x, ratJ q.y, ratJ q.z, .bool q.alive, .bool q.active]
+       | none => .str "IndexError")
+    | _ => .null) ps)
+
 def handlers : List (String × (Json → R Json)) :=
-  [("tk", opTk), ("period", opPeriod), ("state", opState), ("outrun", opOutRun), ("genname", opGenName)]
+  [("tk", opTk), ("period", opPeriod), ("state", opState), ("outrun", opOutRun), ("genname", opGenName),
+   ("forcing", opForcing), ("z2s", opZ2s), ("sdepth", opSdepth), ("sstretch", opSstretch),
+   ("sample", opSample), ("grid", opGrid), ("sample2d", opSample2D), ("bilininv", opBilinInv),
+   ("tracker", opTracker)]
 
 def handle (line : String) : String :=
   match Json.parse line with
